@@ -304,6 +304,42 @@ impl Ctx {
     }
 }
 
+impl Ctx {
+    /// Two and three non-ASCII documents as xt writes them (JSON, YAML, MessagePack), fed back without a format
+    /// through a reader that cuts the stream once, at every offset in turn (also inside multi-byte characters,
+    /// also just after the first document): the answer is the format written, every time.
+    fn cut_sweep(&mut self) {
+        let src = "{\"k\":\"\u{e9}\u{20ac}\u{1f600}\"}\n[\"\u{fc}\u{df}\",{\"\u{3b1}\":\"\u{3b2}\"}]\n{\"z\":\"\u{4e2d}\u{6587}\"}\n";
+        for f in ["json", "yaml", "msgpack"] {
+            let mut out = vec![];
+            if xt::translate_slice(src.as_bytes(), Some(xt::Format::Json), fmt_by_name(f).unwrap(), &mut out).is_err() {
+                continue;
+            }
+            let bytes = Rc::new(out);
+            let id = format!("{:016x}:{}", fnv(&bytes), bytes.len());
+            let run = detect_once(&bytes, None, None);
+            self.rec(json!({"ev": "input", "id": id, "n": bytes.len(), "fault": -1, "mode": "slice", "translates": true,
+                            "label": format!("xt-output/{f}/cut-sweep"), "hex": "", "sched": ""}));
+            for r in &run.records {
+                self.rec(r.clone());
+            }
+            self.rec(json!({"ev": "result", "res": run.answer, "srcerr": run.srcerr}));
+            let mut same = true;
+            for k in 1..bytes.len() {
+                let answer = match catch(|| xt::verif::detect_reader(SchedReader::new(bytes.clone(), Sched::Cuts(vec![k]), new_log()))) {
+                    Ok(Ok(Some(ff))) => fmt_name(ff).to_owned(),
+                    Ok(Ok(None)) => "none".to_owned(),
+                    _ => "error".to_owned(),
+                };
+                same &= answer == run.answer;
+                self.sum.eval();
+            }
+            self.rec(json!({"ev": "self", "id": id, "wrote": f, "collection": true, "detected": run.answer, "same_out": same, "sidecond": true, "text": ""}));
+            self.sum.nontrivial(format!("cut-sweep/{f}"));
+        }
+    }
+}
+
 pub fn record(out_path: &str, count: u64) {
     let seed = seed_from_env();
     let mut cx = Ctx { out: BufWriter::new(File::create(out_path).expect("trace")), sum: Summary::new("record-detect"), lines: 0 };
@@ -335,6 +371,9 @@ pub fn record(out_path: &str, count: u64) {
         ("toml-array-header-only", b"[[bin]]\n".to_vec()),
         ("toml-header-comment", b"[a]\n# c\n".to_vec()),
         // a UTF-8 byte order mark in front of block collections whose later lines start at column 0
+        ("yaml-utf16le-bom", val::reencode("k: v\nlist:\n  - 1\n", "utf16le", true)),
+        ("yaml-utf16be", val::reencode("k: v\nlist:\n  - 1\n", "utf16be", false)),
+        ("yaml-utf32le", val::reencode("k: [1, 2]\n", "utf32le", false)),
         ("yaml-bom-block-mapping", b"\xef\xbb\xbfname: xt\nkind: tool\n".to_vec()),
         ("yaml-bom-block-sequence", b"\xef\xbb\xbf- a\n- b: 1\n  c: 2\n".to_vec()),
         ("text", b"just some text\n".to_vec()),
@@ -363,6 +402,13 @@ pub fn record(out_path: &str, count: u64) {
         let arr = format!("[{}]", (0..n).map(|i| (i % 100).to_string()).collect::<Vec<_>>().join(","));
         cx.big_self_src(&arr, &format!("{n}-small-ints"), &format!("smallints/{n}"));
     }
+    // a first document of 3.3 MB (beyond the 2 MiB that only TOML's reader trial is limited to)
+    {
+        let recs: Vec<String> = (0..40000).map(|i| format!("{{\"id\":{i},\"description\":\"text \u{e9} number {i} with some length to it\"}}")).collect();
+        cx.big_self_src(&format!("[{}]", recs.join(",")), "40000-records", "records/40000");
+    }
+    // xt's JSON output of several non-ASCII documents, one read boundary at every byte offset
+    cx.cut_sweep();
     // TOML documents around the 1 MiB mark and just below the 2 MiB look-ahead of reader detection
     for size in [1_048_575usize, 1_048_576, 1_500_000, 2_097_151, 2_097_152, 3_000_000] {
         cx.big_toml(size);
